@@ -2,6 +2,8 @@ SPECIFICATION SimSpec
 CONSTANTS
   WorkerCpus <- E_Workers
   WorkerGroup <- E_Groups
+  WorkerLife <- E_Life
+  MaxTicks = 0
   Menu <- E_Menu
   OpenJobs <- E_Open
   Classes <- E_Classes
